@@ -1,7 +1,10 @@
 #!/usr/bin/env python3
 """Apply every seeded mutant to /repo, run the check of its property (quick tier), undo; print a table."""
-import json, os, subprocess, sys, glob
+import json, os, subprocess, sys, glob, shutil
 ids = sys.argv[1:]
+# evidence written while a mutant is applied must never be committed: keep the clean-tree files aside
+if os.path.isdir("/verif/work/evidence.keep"): shutil.rmtree("/verif/work/evidence.keep")
+shutil.copytree("/verif/evidence", "/verif/work/evidence.keep")
 rows = []
 for d in sorted(glob.glob("/verif/seeded/*_m*")):
     name = os.path.basename(d); pid = name.split("_")[0]
@@ -17,4 +20,9 @@ for d in sorted(glob.glob("/verif/seeded/*_m*")):
     rows.append((name, verdict, "; ".join(l.replace("VIOLATION property=", "V ") for l in lines)[:160]))
     print(rows[-1], flush=True)
 subprocess.run(["git", "-C", "/repo", "checkout", "--", "."], check=True)
-json.dump(rows, open("/verif/work/seeded_results.json", "w"), indent=1)
+shutil.rmtree("/verif/evidence"); shutil.copytree("/verif/work/evidence.keep", "/verif/evidence")
+old = {}
+try: old = {r[0]: r for r in json.load(open("/verif/work/seeded_results.json"))}
+except Exception: pass
+for r in rows: old[r[0]] = r
+json.dump(sorted(old.values()), open("/verif/work/seeded_results.json", "w"), indent=1)
